@@ -161,6 +161,10 @@ pub fn capture_stop() {
   CAPTURE.with(|c| *c.borrow_mut() = None);
 }
 
+pub fn capture_len() -> usize {
+  CAPTURE.with(|c| c.borrow().as_ref().map_or(0, Vec::len))
+}
+
 pub fn capture_drain() -> Vec<(Locator, Vec<u8>)> {
   CAPTURE.with(|c| {
     c.borrow_mut()
